@@ -34,9 +34,10 @@ EXTENDS Integers, Sequences, FiniteSets, TLC, Json
 
 CONSTANTS
   Names,      \* binding names (at most 64: one bit each in the frame bit set)
-  PatSeq,     \* sequence of abstract patterns to explore
-  TreeSeq,    \* sequence of abstract trees to explore
   MergeMode, NotMode, IdxMode, PopMode
+\* The sequences of abstract patterns / trees to explore are parameters (ps, ts) of the actions
+\* below; the MC modules instantiate them with their families.  (A family handed over as a cfg
+\* constant is re-evaluated by TLC at every use: measured 0.1 s per access.)
 
 ASSUME Cardinality(Names) <= 64
 
@@ -44,15 +45,19 @@ VARIABLES pi, ti, res
 vars == <<pi, ti, res>>
 
 -----------------------------------------------------------------------------
-(* Values.  Trees:  [k:"id",n] | [k:"bin",x,y] | [k:"call",f,args] with    *)
+(* Values.  Trees:  [k:"id",n] | [k:"bin",op,x,y] | [k:"call",f,args] with *)
 (* args = [k:"list",es]; further values a pattern can meet or bind:        *)
-(* [k:"str",s] (Ident.Name) and [k:"list",es] ([]ast.Expr).                *)
-(* Patterns: any | str(s) | ref(n) | bind(n,sub) | id(name) | bin(x,y) |   *)
+(* [k:"str",s] (Ident.Name), [k:"tok",s] (BinaryExpr.Op) and [k:"list",es] *)
+(* ([]ast.Expr).                                                           *)
+(* Patterns: any | str(s) | ref(n) | bind(n,sub) | id(name) | bin(x,o,y) | *)
 (*   call(f,args) | nil ([] = (List nil nil)) | cons(h,t) | or(alts) |     *)
 (*   not(a).                                                               *)
 (***************************************************************************)
 Unbound == [k |-> "unbound"]
 Str(s)  == [k |-> "str", s |-> s]
+Tok(s)  == [k |-> "tok", s |-> s]
+\* String.Match: a string pattern matches an equal string, or the token it spells
+StrMatches(q, v) == (v.k = "str" \/ v.k = "tok") /\ v.s = q.s
 Env0    == [n \in Names |-> Unbound]
 
 \* a node pattern meeting a one-element list matches the element (matchNodeAST, slice cases)
@@ -75,7 +80,7 @@ NamesOf(q) ==
   CASE q.k = "ref"  -> {q.n}
     [] q.k = "bind" -> {q.n} \cup NamesOf(q.sub)
     [] q.k = "id"   -> NamesOf(q.name)
-    [] q.k = "bin"  -> NamesOf(q.x) \cup NamesOf(q.y)
+    [] q.k = "bin"  -> NamesOf(q.x) \cup NamesOf(q.o) \cup NamesOf(q.y)
     [] q.k = "call" -> NamesOf(q.f) \cup NamesOf(q.args)
     [] q.k = "cons" -> NamesOf(q.h) \cup NamesOf(q.t)
     [] q.k = "or"   -> UNION { NamesOf(q.alts[i]) : i \in 1..Len(q.alts) }
@@ -86,7 +91,7 @@ MayBind(q, B) ==
   CASE q.k = "ref"  -> B \cup {q.n}
     [] q.k = "bind" -> MayBind(q.sub, B) \cup {q.n}
     [] q.k = "id"   -> MayBind(q.name, B)
-    [] q.k = "bin"  -> MayBind(q.y, MayBind(q.x, B))
+    [] q.k = "bin"  -> MayBind(q.y, MayBind(q.o, MayBind(q.x, B)))
     [] q.k = "call" -> MayBind(q.args, MayBind(q.f, B))
     [] q.k = "cons" -> MayBind(q.t, MayBind(q.h, B))
     [] q.k = "or"   -> B \cup UNION { MayBind(q.alts[i], B) : i \in 1..Len(q.alts) }
@@ -95,7 +100,7 @@ MayBind(q, B) ==
 WF(q, B) ==
   CASE q.k = "bind" -> q.n \notin B /\ q.n \notin NamesOf(q.sub) /\ WF(q.sub, B)
     [] q.k = "id"   -> WF(q.name, B)
-    [] q.k = "bin"  -> WF(q.x, B) /\ WF(q.y, MayBind(q.x, B))
+    [] q.k = "bin"  -> WF(q.x, B) /\ WF(q.o, MayBind(q.x, B)) /\ WF(q.y, MayBind(q.o, MayBind(q.x, B)))
     [] q.k = "call" -> WF(q.f, B) /\ WF(q.args, MayBind(q.f, B))
     [] q.k = "cons" -> WF(q.h, B) /\ WF(q.t, MayBind(q.h, B))
     [] q.k = "or"   -> \A i \in 1..Len(q.alts) : WF(q.alts[i], B)
@@ -115,9 +120,9 @@ RECURSIVE Concat(_, _)
 Concat(ss, i) == IF i > Len(ss) THEN <<>> ELSE ss[i] \o Concat(ss, i + 1)
 NameOrder(q) ==
   CASE q.k = "ref"  -> <<q.n>>
-    [] q.k = "bind" -> <<q.n>> \o NameOrder(q.sub)
+    [] q.k = "bind" -> NameOrder(q.sub) \o <<q.n>>     \* the operand is parsed before the index is taken
     [] q.k = "id"   -> NameOrder(q.name)
-    [] q.k = "bin"  -> NameOrder(q.x) \o NameOrder(q.y)
+    [] q.k = "bin"  -> NameOrder(q.x) \o NameOrder(q.o) \o NameOrder(q.y)
     [] q.k = "call" -> NameOrder(q.f) \o NameOrder(q.args)
     [] q.k = "cons" -> NameOrder(q.h) \o NameOrder(q.t)
     [] q.k = "or"   -> Concat([i \in 1..Len(q.alts) |-> NameOrder(q.alts[i])], 1)
@@ -137,7 +142,7 @@ DIll  == [r |-> "ill",  env |-> Env0, val |-> Unbound, log |-> {}]
 RECURSIVE Den(_, _, _), DenOr(_, _, _, _)
 Den(q, v, env) ==
   CASE q.k = "any" -> DOk(env, v, {})
-    [] q.k = "str" -> IF v.k = "str" /\ v.s = q.s THEN DOk(env, v, {}) ELSE DFail
+    [] q.k = "str" -> IF StrMatches(q, v) THEN DOk(env, v, {}) ELSE DFail
     [] q.k = "ref" ->
          IF env[q.n] = Unbound THEN DOk([env EXCEPT ![q.n] = v], v, {<<q.n, v>>})
          ELSE IF RecallEq(env[q.n], v) THEN DOk(env, v, {<<q.n, v>>}) ELSE DFail
@@ -157,8 +162,10 @@ Den(q, v, env) ==
          IF w.k # "bin" THEN DFail
          ELSE LET r1 == Den(q.x, w.x, env) IN
               IF r1.r # "ok" THEN r1
-              ELSE LET r2 == Den(q.y, w.y, r1.env) IN
-                   IF r2.r # "ok" THEN r2 ELSE DOk(r2.env, w, r1.log \cup r2.log)
+              ELSE LET ro == Den(q.o, Tok(w.op), r1.env) IN
+                   IF ro.r # "ok" THEN ro
+                   ELSE LET r2 == Den(q.y, w.y, ro.env) IN
+                        IF r2.r # "ok" THEN r2 ELSE DOk(r2.env, w, r1.log \cup ro.log \cup r2.log)
     [] q.k = "call" ->
          LET w == Solo(v) IN
          IF w.k # "call" THEN DFail
@@ -215,7 +222,7 @@ RPanic(st) == [r |-> "panic", st |-> st, val |-> Unbound]   \* "binding already 
 RECURSIVE Op(_, _, _, _), OpOr(_, _, _, _, _)
 Op(q, v, st, bs) ==
   CASE q.k = "any" -> ROk(st, v)
-    [] q.k = "str" -> IF v.k = "str" /\ v.s = q.s THEN ROk(st, v) ELSE RFail(st)
+    [] q.k = "str" -> IF StrMatches(q, v) THEN ROk(st, v) ELSE RFail(st)
     [] q.k = "ref" ->                                   \* Binding.Match, Node = nil
          IF st.env[q.n] # Unbound
          THEN IF RecallEq(st.env[q.n], v) THEN ROk(st, v) ELSE RFail(st)
@@ -234,8 +241,10 @@ Op(q, v, st, bs) ==
          IF w.k # "bin" THEN RFail(st)
          ELSE LET r1 == Op(q.x, w.x, st, bs) IN
               IF r1.r # "ok" THEN r1
-              ELSE LET r2 == Op(q.y, w.y, r1.st, bs) IN
-                   IF r2.r # "ok" THEN r2 ELSE ROk(r2.st, w)
+              ELSE LET ro == Op(q.o, Tok(w.op), r1.st, bs) IN
+                   IF ro.r # "ok" THEN ro
+                   ELSE LET r2 == Op(q.y, w.y, ro.st, bs) IN
+                        IF r2.r # "ok" THEN r2 ELSE ROk(r2.st, w)
     [] q.k = "call" ->
          LET w == Solo(v) IN
          IF w.k # "call" THEN RFail(st)
@@ -280,32 +289,28 @@ NoRes == [done |-> FALSE]
 \* pattern is kept for them (the first such tree), the rest is skipped
 NodeKinds == {"id", "bin", "call"}
 Trivial(q, v) == q.k \in NodeKinds /\ v.k # q.k
-TreesFor(i) ==
-  LET all  == 1..Len(TreeSeq)
-      triv == { j \in all : Trivial(PatSeq[i], TreeSeq[j]) }
+TreesFor(q, ts) ==
+  LET all  == 1..Len(ts)
+      triv == { j \in all : Trivial(q, ts[j]) }
   IN (all \ triv) \cup (IF triv = {} THEN {} ELSE { CHOOSE m \in triv : \A l \in triv : m <= l })
 
-Init == /\ pi \in 1..Len(PatSeq)
-        /\ ti = 0
-        /\ res = NoRes
+InitOver(ps) == /\ pi \in 1..Len(ps)
+                /\ ti = 0
+                /\ res = NoRes
 
 \* the API call pattern.Match(p, t)
-MatchCall ==
+MatchCall(ps, ts) ==
   /\ res = NoRes
-  /\ \E j \in TreesFor(pi) :
+  /\ LET q == ps[pi] IN
+     \E j \in TreesFor(q, ts) :
        /\ ti' = j
-       /\ res' = [done |-> TRUE, den |-> Den(PatSeq[pi], TreeSeq[j], Env0), op |-> Run(PatSeq[pi], TreeSeq[j])]
+       /\ res' = [done |-> TRUE, p |-> q, t |-> ts[j], den |-> Den(q, ts[j], Env0), op |-> Run(q, ts[j])]
   /\ UNCHANGED pi
-
-Next == MatchCall
-Spec == Init /\ [][Next]_vars
 
 -----------------------------------------------------------------------------
 (* The laws.  All are about well-formed patterns; the MC modules only put  *)
-(* statically well-formed patterns into PatSeq (AllWellFormed).            *)
+(* statically well-formed patterns into their families (AllWellFormed).    *)
 (***************************************************************************)
-\* (operators over PatSeq/TreeSeq take them as arguments: TLC evaluates parameterless constant
-\* definitions at start-up, before the model's families are cached)
 AllWellFormed(ps) == \A i \in 1..Len(ps) : WellFormed(ps[i])
 
 Bound(e) == { n \in Names : e[n] # Unbound }
@@ -331,16 +336,16 @@ ConsistentRecall ==
 \* C09: "bindings made inside ... a Not operand that failed are not observable"
 \* (a Not at the root leaves no binding at all; nested Nots are covered by the log law)
 NotLeavesNoBindings ==
-  (res.done /\ PatSeq[pi].k = "not" /\ res.den.r = "ok") => Bound(res.den.env) = {}
+  (res.done /\ res.p.k = "not" /\ res.den.r = "ok") => Bound(res.den.env) = {}
 
-\* C09: atomic alternatives, stated on the mechanism: whatever an Or's result, the names visible
-\* afterwards are those visible before plus those of the alternative that matched
+\* C09: atomic alternatives, stated on the mechanism: the names visible after an Or are those of
+\* the first alternative that matches on its own, with that alternative's values
 RECURSIVE FirstOk(_, _, _, _)
 FirstOk(alts, i, v, env) ==
   IF i > Len(alts) THEN 0 ELSE IF Den(alts[i], v, env).r = "ok" THEN i ELSE FirstOk(alts, i + 1, v, env)
 AtomicAlternatives ==
-  (res.done /\ PatSeq[pi].k = "or") =>
-     LET q == PatSeq[pi]  v == TreeSeq[ti]  j == FirstOk(q.alts, 1, v, Env0) IN
+  (res.done /\ res.p.k = "or") =>
+     LET q == res.p  v == res.t  j == FirstOk(q.alts, 1, v, Env0) IN
      IF j = 0 THEN res.den.r = "fail" /\ res.op.r = "fail"
      ELSE /\ res.op.r = "ok"
           /\ res.op.st.env = Den(q.alts[j], v, Env0).env
